@@ -98,7 +98,9 @@ func checkCase(cc Case) fw.Outcome {
 // ---- generators ----------------------------------------------------------------
 
 var exprAlphabet = []string{"(", ")", "[", "]", ".", "..", "@", ",", "::", "/", "//", "|", "+", "-", "=", "!=", "<", ">=", "*", "1", "'s'",
-	"a", "p:b", "p:*", "u:b", "div", "and", "or", "mod", "text", "node", "child", "self", "current", "deref", "count", "true", "not", "concat", "nosuch", "$v", ":"}
+	"a", "p:b", "p:*", "u:b", "div", "and", "or", "mod", "text", "node", "child", "self", "current", "deref", "count", "true", "not", "concat", "nosuch", "$v", ":",
+	// operator names are case sensitive: these are ordinary names
+	"AND", "Or", "DIV", "Mod"}
 
 var lrAlphabet = []string{"/", "..", "[", "]", "=", "(", ")", "current", "a", "p:b", "xmlfoo", "u:b", ".", "*", "'s'", "1"}
 
@@ -206,6 +208,7 @@ var lexical = []string{
 	"lang('en')", "id('a')", "name()", "name(a)", "namespace-uri()", "nosuch()", "nosuch(1)", "p:f()", "f", "f(", "f)", "f()",
 	"a[1]", "a[1][2]", "a[]", "a[", "a]", "a[[1]]", "a[1]]", "a[b[c]]", "a[b=c]/d", "a[1]/b[2]", ".[1]", "..[1]", "a/.[1]", "a[.]", "a[..]", "a[. = 1]", "1[1]", "'a'[1]", "(1)[1]",
 	"a|b", "a|", "|a", "a||b", "a|b|c", "a | (b | c)", "(a|b)/c", "1|2", "a|1", "'a'|b", "a|b[1]", "-a|b",
+	"a AND b", "a Or b", "1 DIV 2", "a Mod b", "AND", "a/AND", "AND and Or", "DIV div Mod", "a and b OR c", "Div(1)", "a aNd b",
 	"a and b", "a or b", "a and", "and a", "a andb", "aand b", "a and and", "a div b", "a mod b", "a div", "div", "1 div 2", "1div 2", "1 div2", "1div2", "(1)div(2)", "1 mod(2)", "a=b", "a!=b", "a!b", "a=!b", "a==b", "a<b", "a<=b", "a=<b", "a>b", "a>=b", "a=>b", "a<>b", "a<<b", "a< =b", "a! =b", "1<2<3", "1=2=3", "a+b", "a+", "+a", "a++b", "1+-1", "1-+1", "a,b", ",", "a,", "(a,b)",
 	"é", "éa", "aé", "·a", "a·", "a\u0300", "\u0300a", "a\u203f", "\u203fa", "a\u00d7", "\u00d7", "a\u00f7b", "\u037e", "a\u037e", "\u2000a", "a\u2000", "\u3000", "a\u3000b", "\ufffe", "a\ufffe", "\U000effff", "\U000f0000", "a\U000f0000", "日本:語", "p:日本", "日本:*",
 }
